@@ -66,7 +66,25 @@ def run_property(prop, tier, seed, replay=None):
             c["id"] = i
 
     # ---- stage 6: run implementation
-    obs = prop.run_impl(cases, workdir)
+    try:
+        obs = prop.run_impl(cases, workdir)
+    except ImplementationPanic as ip:
+        # the implementation returned nothing at all on a concrete input: that input is the replay
+        orig = next((c for c in cases if c.get("id") == ip.case.get("id")), ip.case)
+        path = write_replay(pid, {"property": pid, "kind": "counterexample", "seed": seed, "input": orig,
+                                  "observed": {"panic": ip.message}, "judgement": "implementation-panic",
+                                  "explain": "the code under test panicked on this input; the model, and every "
+                                             "property decided through it, requires a returned value"})
+        coverage = {"obligations": len(pst["theorems"]) + 1, "discharged": len(pst["theorems"]) if pst["ok"] else 0,
+                    "checker_cmd": f"cd coq && make -k theories/Props/{pid}.vo", "trusted_base": prop.trusted_base,
+                    "theorems": pst["theorems"], "evaluations": len(cases), "distinct_nontrivial": 0, "rule": prop.rule,
+                    "samples": [{"input": orig, "observed": {"panic": ip.message}}],
+                    "broken_obligations": broken + [f"correspondence {prop.stream}: implementation panicked: {ip.message[:300]}"],
+                    "translator_missing": gj.get("missing", [])}
+        write_evidence(pid, tier, seed, coverage, prop.assumptions, T.s(), 1)
+        print(f"VIOLATION property={pid} replay={os.path.relpath(path, VERIF)}")
+        log(f"{pid}: {len(cases)} cases, implementation panic, {T.s():.1f}s, exit 1")
+        return 1
 
     # ---- stage 7: evaluate in Coq
     def evaluate(cs, ob, wd):
